@@ -16,14 +16,16 @@ package main
 // complete report identical public material; their shares sign under it (BLS).
 
 import (
-	"os"
 	"bytes"
 	"context"
 	"crypto/sha256"
 	"encoding/asn1"
 	"fmt"
+	"os"
+	"sort"
 	"strings"
 	"sync"
+	"sync/atomic"
 	"time"
 
 	"github.com/IBM/TSS/mpc/bls"
@@ -122,10 +124,30 @@ func dkgStepRun(kind string, r *prng.R, s *out.Sink, n, t, msgLen int, scenario 
 	for i := range parties {
 		parties[i] = uint16(i + 1)
 	}
+	if dkgStepInst%3 == 0 {
+		// party identifiers from the corners of the 16-bit range (sorted, as the orchestrator hands them over)
+		parties = pickIDs(r, n)
+		sort.Slice(parties, func(i, j int) bool { return parties[i] < parties[j] })
+		s.Count("dkg/corner-identifiers")
+	}
 	w := &stepWorld{victim: parties[r.Intn(n)], backs: map[uint16]tss.KeyGenerator{}, events: make(chan string, 64)}
 	V := w.victim
+	// cancel-at-park (fault-free runs only): the context of the party under test ends at the very moment it is about to
+	// wait — after it has tested the context, holding its lock, before sync.Cond.Wait. The context monitor's wake-up must
+	// not get lost in that window.
+	cancelAtPark := 0
+	if scenario == "honest" && r.Intn(2) == 0 {
+		cancelAtPark = 1 + r.Intn(3)
+	}
+	var parks, hookCancelled int32
+	var cancelHook func()
 	park := func(p uint16, where string) {
 		if p == V {
+			if k := atomic.AddInt32(&parks, 1); int(k) == cancelAtPark && cancelHook != nil {
+				cancelHook()
+				atomic.StoreInt32(&hookCancelled, 1)
+				time.Sleep(3 * time.Millisecond) // room for the monitor goroutine to react while nobody waits yet
+			}
 			w.events <- "park"
 		}
 	}
@@ -146,6 +168,7 @@ func dkgStepRun(kind string, r *prng.R, s *out.Sink, n, t, msgLen int, scenario 
 	}
 	desc := fmt.Sprintf("%s n=%d t=%d party under test %d scenario %s", kind, n, t, V, scenario)
 	ctx, cancel := context.WithCancel(context.Background())
+	cancelHook = cancel
 	pctx, pcancel := context.WithTimeout(context.Background(), 20*time.Second)
 	results := map[uint16][]byte{}
 	var resMu sync.Mutex
@@ -311,6 +334,23 @@ func dkgStepRun(kind string, r *prng.R, s *out.Sink, n, t, msgLen int, scenario 
 	b2 := func(kind byte, payload []byte) []byte { return append([]byte{kind}, payload...) }
 	budget := 8 + r.Intn(60)
 	for step := 0; !finished; step++ {
+		if atomic.LoadInt32(&hookCancelled) == 1 && !cancelled {
+			// the context ended while the party was about to wait: the model takes the same event; the party must wake up
+			// and return
+			cancelled = true
+			s.Count("dkg/cancel-at-park")
+			emit("dkg/ctx", fmt.Sprintf("dkg ctx %d", inst), "-")
+			select {
+			case ev := <-w.events:
+				logWake(ev, takeOut())
+				finished = ev != "park"
+			case <-time.After(5 * time.Second):
+				s.Violate("C11", fmt.Sprintf("KeyGen of party %d did not return: its context ended while it was about to wait (after its test of the context, before sync.Cond.Wait) and the wake-up of the context monitor was lost", V), desc+"\n"+strings.Join(hist, "\n"))
+				finishRun()
+				return false
+			}
+			continue
+		}
 		w.mu.Lock()
 		np := len(w.pending)
 		w.mu.Unlock()
